@@ -404,6 +404,7 @@ def gen_case(rng, profile=None):
     # (a bound method is a new object at every attribute access), so there equal means "the same"
     env["eqDests"] = stats(prog)["ops"].get("removeDest", 0) == 0 and rng.random() < 0.3
     env["sameExcObj"] = rng.random() < 0.3
+    env["warnErrors"] = rng.random() < 0.3
     return dict(env=env, prog=prog)
 
 
